@@ -50,14 +50,13 @@ fn fee_fields(fee: u64, shift: u64) -> FeeFields {
 	grin_core::ser::deserialize_default(&mut &b[..]).unwrap()
 }
 fn tx_1_2_1(features: KernelFeatures) -> Transaction {
+	// one input, no outputs, one kernel: the gate under test only reads counts and fee fields
+	// (two 700-byte outputs made the query exceed 23 GB / 37 min without finishing)
 	Transaction {
 		offset: BlindingFactor::zero(),
 		body: TransactionBody {
 			inputs: Inputs::CommitOnly(vec![CommitWrapper::from(commit(1))]),
-			outputs: vec![
-				Output::new(OutputFeatures::Plain, commit(2), RangeProof::zero()),
-				Output::new(OutputFeatures::Plain, commit(3), RangeProof::zero()),
-			],
+			outputs: vec![],
 			kernels: vec![TxKernel { features, excess: commit(4), excess_sig: Signature::from_raw_data(&[0u8; 64]).unwrap() }],
 		},
 	}
@@ -81,18 +80,18 @@ proof! {
 			KernelFeatures::Plain { fee: fee_fields(fee, shift) }
 		};
 		let tx = tx_1_2_1(features);
-		// weight of 1 input, 2 outputs, 1 kernel = 1 + 42 + 3
-		check!(tx.weight() == 46, "weight = inputs + 21*outputs + 3*kernels");
+		// weight of 1 input, 0 outputs, 1 kernel = 1 + 0 + 3
+		check!(tx.weight() == 4, "weight = inputs + 21*outputs + 3*kernels");
 		check!(tx.shifted_fee() == fee >> shift, "shifted fee = fee >> fee_shift");
-		check!(tx.accept_fee() == 46 * base, "minimum fee = weight * base");
+		check!(tx.accept_fee() == 4 * base, "minimum fee = weight * base");
 		let stem: bool = nd::any();
 		let mut pool = TransactionPool::new(PoolConfig::default(), Arc::new(MChain), Arc::new(NoopPoolAdapter {}));
 		let header = BlockHeader::default();
-		let low = (fee >> shift) < 46 * base;
+		let low = (fee >> shift) < 4 * base;
 		nd::assume(low);
 		let r = pool.add_to_pool(TxSource::Broadcast, tx, stem, &header);
 		check!(matches!(r, Err(PoolError::LowFeeTransaction(_))), "a transaction paying less than weight*base (after its fee shift) is refused as low-fee");
-		cover!(shift > 0 && fee >= 46 * base, "fee sufficient before the shift but not after");
+		cover!(shift > 0 && fee >= 4 * base, "fee sufficient before the shift but not after");
 		core::mem::forget(r);
 		core::mem::forget(pool);
 	}
@@ -158,8 +157,31 @@ proof! {
 	}
 }
 
+proof! {
+	[zeroize] fn tx_fee_gate_inputs() {
+		// the three quantities the pool's fee gate compares, on a real Transaction
+		env::set_chain_type(grin_core::global::ChainTypes::Mainnet);
+		let base: u64 = nd::any();
+		nd::assume(base < (1 << 40));
+		env::set_accept_fee_base(base);
+		let fee: u64 = nd::any();
+		nd::assume(fee < (1 << 40));
+		let shift: u64 = nd::any();
+		nd::assume(shift < 16);
+		let tx = tx_1_2_1(KernelFeatures::Plain { fee: fee_fields(fee, shift) });
+		check!(tx.weight() == 4, "weight = inputs + 21*outputs + 3*kernels");
+		check!(tx.fee() == fee, "fee");
+		check!(tx.shifted_fee() == fee >> shift, "shifted fee = fee >> fee_shift");
+		check!(tx.accept_fee() == 4 * base, "minimum fee = weight * accept_fee_base");
+		check!((tx.shifted_fee() < tx.accept_fee()) == ((fee >> shift) < 4 * base), "the gate's comparison");
+		cover!(shift > 0 && fee >= 4 * base && (fee >> shift) < 4 * base, "fee sufficient before the shift but not after");
+		core::mem::forget(tx);
+	}
+}
+
 pub const HARNESSES: &[(&str, fn())] = &[
 	("c14::pool_refuses_low_fee", pool_refuses_low_fee),
 	("c14::pool_refuses_nrd_unless_enabled_and_hf3", pool_refuses_nrd_unless_enabled_and_hf3),
 	("c14::fee_and_weight_arithmetic", fee_and_weight_arithmetic),
+	("c14::tx_fee_gate_inputs", tx_fee_gate_inputs),
 ];
